@@ -120,7 +120,8 @@ NAMED = {
     'EquivalentDose': _v(L=2, T=-2), 'Concentration': _v(N=1, L=-3), 'CatalyticActivity': _v(N=1, T=-1),
 }
 # 'MassConcentration' is bound to Density**-1 in the module (physically it is M/L3) and 'Llluminance' is a misspelling;
-# both are naming matters outside the property and are not part of the model.
+# both are naming matters outside the property: reported in coverage as anomalies, never a verdict.
+NAMED_SUSPECT = {'MassConcentration': _v(M=1, L=-3), 'Illuminance': _v(J=1, L=-2), 'Llluminance': _v(J=1, L=-2)}
 
 
 class Table:
@@ -420,15 +421,23 @@ class UnitSystem:
         else:
             r = (float(d), vnorm({name: 1}))
         self._busy.discard(name)
+        if not self.LO < abs(r[0]) < self.HI:
+            raise ModelInvalid('unit value outside the comfortable float range')
         self.values[name] = r
         return r
 
+    # every partial result must stay inside this window, so that any order of multiplication is free of overflow and
+    # of subnormal precision loss (the module under test multiplies prefix and unit powers in another order)
+    LO, HI = 1e-90, 1e90
+
     def word(self, w, _defining=False):
+        """(prefix scale, unit value, vec) of a word."""
         if w in self.defs:
-            return self._resolve(w) if _defining else self.values[w]
+            val, v = self._resolve(w) if _defining else self.values[w]
+            return 1., val, v
         if len(w) > 1 and w[0] in self.prefix and w[1:] in self.defs:
             val, v = self._resolve(w[1:]) if _defining else self.values[w[1:]]
-            return self.prefix[w[0]] * val, v
+            return self.prefix[w[0]], val, v
         raise ModelInvalid(f'unknown unit {w!r}')
 
     def parse(self, s, _defining=False):
@@ -442,12 +451,10 @@ class UnitSystem:
                 raise ModelInvalid(f'bad factor {text!r}')
             w, pn = fm.groups()
             n = int(pn) if pn else 1
-            uval, uvec = self.word(w, _defining)
-            try:
-                f = uval ** n
-                if not 1e-280 < abs(f) < 1e280:
-                    raise OverflowError
-            except OverflowError:
+            pscale, uval, uvec = self.word(w, _defining)
+            pf, uf = pscale ** n, uval ** n
+            f = pf * uf
+            if not all(self.LO < abs(x) < self.HI for x in (pf, uf, f)):
                 raise ModelInvalid('overflow')
             if op == '*':
                 value *= f
@@ -455,7 +462,7 @@ class UnitSystem:
             else:
                 value /= f
                 v = vdiv(v, vpow(uvec, n))
-            if not 1e-280 < abs(value) < 1e280:
+            if value != 0 and not self.LO < abs(value) < self.HI:
                 raise ModelInvalid('overflow')
         return value, v
 
